@@ -1735,7 +1735,7 @@ class Quantity(metaclass=QuantityMeta):
             return (other / self.amount * amnt) * unit
         if isinstance(other, Real):
             amnt, unit = self.unit._pow(-1)
-            return (other / Decimal(self.amount) * amnt) * unit
+            return (Decimal(other) / self.amount * amnt) * unit
         return NotImplemented
 
     def __pow__(self, exp: int) -> Quantity:
